@@ -7,6 +7,7 @@
 From Coq Require Import List NArith ZArith Bool Lia Arith.
 From GmsmVerif Require Import Lib.Outcome EC.ECAffine EC.SM2Curve SM3.SM3Spec
      SM2.SM2Bytes SM2.SM2BytesProofs SM2.SM2Spec SM2.DER SM2.SM2Model SM2.SM2SignProofs SM2.DERProofs SM2.SM2Group.
+From GmsmVerif Require Import SM2.SM2ParamsTie Gen.SM2Params Gen.SM2SigParams.
 Import ListNotations.
 Open Scope Z_scope.
 
@@ -225,6 +226,16 @@ Theorem C01_same_r_implies :
     x_of (sm2_base_mul k1) mod sm2_n = x_of (sm2_base_mul k2) mod sm2_n.
 Proof. exact same_r_same_x. Qed.
 Print Assumptions C01_same_r_implies.
+
+(* ---- 7. tie to the source: the constants the model and the specification write as literals are what
+   sm2/p256.go and sm2/sm2.go say now (Gen/ is regenerated by the translator on every run) -------------- *)
+Theorem C01_source_constants_tied :
+  (gen_P = sm2_p /\ gen_N = sm2_n /\ gen_A = sm2_a /\ gen_B = sm2_b /\ gen_Gx = sm2_Gx /\ gen_Gy = sm2_Gy /\
+   gen_BitSize / gen_rand_div + gen_rand_extra = 40) /\
+  (gen_default_uid = default_uid /\ gen_uid_limit = 8192 /\ gen_C1C3C2 = 0 /\ gen_C1C2C3 = 1 /\
+   gen_decrypt_min = Z.of_nat (1 + 64 + 32 + 1)).
+Proof. exact (conj curve_params_tied sig_params_tied). Qed.
+Print Assumptions C01_source_constants_tied.
 
 (* ---- non-vacuity: concrete instances, evaluated ----------------------------------------------------------- *)
 (* key d = 1, digest 5, a stream whose first attempt gives k = 2 *)
